@@ -633,6 +633,50 @@ def _validate(h, model, info):
     return None
 
 
+def _concrete_disagreement(h, model, info, reals):
+    """real-vs-real (or real-vs-reference) comparison on the witness; False unless it is safe and they really differ"""
+    j = h.job
+    if j.get("compare") or j.get("check_cols"):
+        return False
+    tabs = []
+    for side, sr in ((h.A, info["a"]), (h.B, info["b"])):
+        if getattr(side, "is_reference", False):
+            pred = rel.predicted(model, sr)
+            if pred is None:
+                return False
+            if any(any(w) for w in pred[2]):
+                return False
+            tabs.append((pred[0], pred[1], None))
+        else:
+            rr = reals.get(side.name, {})
+            pred = rel.predicted(model, sr) if sr.ok else None
+            if pred is not None and any(any(w) for w in pred[2]):
+                return False
+            if sr.ok and not z3_free_of_dc(sr):
+                return False
+            tabs.append((rr.get("real"), None, rr.get("exc")))
+    (a, ar, ae), (b, br, be) = tabs
+    # normalise: engines give ((cols, rows)), references give cols, rows
+    def norm(x, xr, xe):
+        if xe is not None and x is None:
+            return None
+        if xr is not None:
+            return (x, xr)
+        return x
+
+    ta, tb = norm(a, ar, ae), norm(b, br, be)
+    if (ta is None) != (tb is None):
+        return not j.get("b_may_raise")
+    if ta is None:
+        return False
+    ordered = bool(info.get("ordered"))
+    return not rel.concrete_tables_match(ta[0], ta[1], tb[0], tb[1], ordered=ordered)
+
+
+def z3_free_of_dc(sr):
+    return all(z3.is_false(c.dc) and z3.is_false(c.kf) for row in sr.rows for c in row)
+
+
 def _confirm(h, eng, r):
     """a solver counterexample: concretise, replay on the real engines, classify"""
     info = r.info
@@ -665,6 +709,15 @@ def _confirm(h, eng, r):
         else:
             f["status"] = "model_divergence"
             f["divergence"] = sides
+            # Fallback when a model could not follow the code (e.g. an API the shim does not cover): the solver's witness is still a
+            # concrete input; compare what the REAL engines (or the reference) return on it.  Only used when no accepted-difference
+            # cell is involved, so that a documented difference can never be reported.
+            try:
+                if _concrete_disagreement(h, model, info, reals):
+                    f["status"] = "confirmed"
+                    f["confirmed_by"] = "real engines on the solver's witness (model diverged)"
+            except Exception:
+                pass
     except Exception:
         f["status"] = "replay_error"
         f["error"] = traceback.format_exc()[-600:]
